@@ -38,8 +38,36 @@ def parseDct : Sexp → Option Dct
     pure (.paramLen bt enc hl k)
   | _ => none
 
+/-- `(lower V open|closed)` / `(upper V open|closed)`: absent → `some none`, malformed → `none` -/
+def parseLinLimit (fs : List Sexp) (key : String) : Option (Option (Int × Bool)) :=
+  match field? fs key with
+  | none => some none
+  | some [v, .atom "open"] => v.asInt?.map fun i => some (i, true)
+  | some [v, .atom "closed"] => v.asInt?.map fun i => some (i, false)
+  | some _ => none
+
+def parseTScale : Sexp → Option TScale
+  | .list [.atom "scale", lo, hi, .atom t] => do
+    let cps ← (bytesOfHex? t).bind (Text.decode .utf8)
+    pure { lo := ← parseIVal lo, hi := ← parseIVal hi, text := cps, inv := none }
+  | .list [.atom "scale", lo, hi, .atom t, inv] => do
+    let cps ← (bytesOfHex? t).bind (Text.decode .utf8)
+    pure { lo := ← parseIVal lo, hi := ← parseIVal hi, text := cps, inv := some (← parseIVal inv) }
+  | _ => none
+
 def parseCompu : Sexp → CCompu
   | .list [.atom "identical"] => .identical
+  | .list (.atom "linear" :: fs) =>
+    match field? fs "num", reqField fs "den" Sexp.asInt?, parseLinLimit fs "lower", parseLinLimit fs "upper" with
+    | some [a, b], some d, some lo, some up =>
+      (match a.asInt?, b.asInt? with
+       | some n0, some n1 => .linear { num0 := n0, num1 := n1, den := d, lower := lo, upper := up }
+       | _, _ => .other)
+    | _, _, _, _ => .other
+  | .list (.atom "texttable" :: scs) =>
+    match scs.mapM parseTScale with
+    | some ts => .texttable ts
+    | none => .other
   | _ => .other
 
 mutual
@@ -54,6 +82,9 @@ partial def parsePVal : Sexp → Option PVal
   | .list [.atom "pair", .atom name, v] => do pure (.pair name (← parsePVal v))
   | .list [.atom "keyed", k, v] => do pure (.keyed (← k.asInt?) (← parsePVal v))
   | .list [.atom "nokey", v] => do pure (.nokey (← parsePVal v))
+  -- the value of a DTC-DOP: the harness hands the integer trouble code to odxtools (a DiagnosticTroubleCode object, as
+  -- returned by decoding, is converted to exactly that by `convert_to_numerical_trouble_code`)
+  | .list [.atom "dtc", c] => do pure (.atom (.int (← c.asInt?)))
   | sx => (parseIVal sx).map PVal.atom
 end
 
@@ -65,6 +96,7 @@ partial def printPVal : PVal → String
   | .pair n v => s!"(pair {n} {printPVal v})"
   | .keyed k v => s!"(keyed {k} {printPVal v})"
   | .nokey v => s!"(nokey {printPVal v})"
+  | .dtc c => s!"(dtc {c})"
 
 mutual
 partial def parseDop : Sexp → Dop
@@ -72,6 +104,13 @@ partial def parseDop : Sexp → Dop
     match reqField fs "dct" parseDct, reqField fs "phys" (atomP parseBaseType) with
     | some dct, some phys => .simple dct phys (match field1? fs "compu" with | some c => parseCompu c | none => .other)
     | _, _ => .unsupported
+  | .list (.atom "dtc" :: fs) =>
+    match reqField fs "dct" parseDct, reqField fs "phys" (atomP parseBaseType), field? fs "dtcs" with
+    | some dct, some phys, some ds =>
+      (match ds.mapM (fun | .list [c, .atom n] => c.asInt?.map (·, n) | _ => none) with
+       | some dtcs => .dtc dct phys (match field1? fs "compu" with | some c => parseCompu c | none => .other) dtcs
+       | none => .unsupported)
+    | _, _, _ => .unsupported
   | .list (.atom "struct" :: fs) =>
     match field? fs "params" with
     | some ps => .struct ((field1? fs "bytesize").bind Sexp.asNat?) (ps.map parseParam)
@@ -162,6 +201,7 @@ def Dop.supported : Dop → Bool
   | .mux _ _ _ sd cases dflt => sd.supported && casesSupported cases &&
       (match dflt with | some (_, some d) => d.supported | _ => true)
   | .unsupported => false
+  | .dtc .. => true
 def casesSupported : List MuxCaseD → Bool
   | [] => true
   | .mk _ _ _ st :: cs => (match st with | some d => d.supported | none => true) && casesSupported cs
